@@ -678,3 +678,55 @@ func (x *pathCtx) concretizeInt(v value, lo, hi int64, what string) (int64, bool
 	}
 	return lo + int64(i), true
 }
+
+// concretizeByModel forces an integer term to a concrete value by asking the
+// solver for a model, evaluating the term under it, and splitting on
+// "term == that value" / "term != that value".  The second branch repeats
+// the procedure when it is feasible, so a term with k possible values costs
+// k paths; a uniquely determined term costs one unsat query.
+func (x *pathCtx) concretizeByModel(v value, what string) int64 {
+	s, ok := v.(sym)
+	if !ok {
+		return asInt64(v)
+	}
+	w, signed := kindBits(s.k)
+	x.solver.define(s.t)
+	for _, in := range x.inputs {
+		for _, t := range in.vars {
+			x.solver.define(t)
+		}
+	}
+	var m uint64
+	if x.concolic != nil {
+		m = evalTerm(s.t, x.concolic, map[*Term]uint64{})
+	} else if len(x.decisions) < len(x.prefix) {
+		// replaying: the recorded decision tells which branch; the value is
+		// recomputed from a model of the path condition restricted by it
+		r, model, _ := x.solver.Check(nil, x.ex.opts.AssertTimeout, true)
+		if r != Sat {
+			panic(abortPath{"concretizeByModel: no model on replay"})
+		}
+		m = evalTerm(s.t, model, map[*Term]uint64{})
+	} else {
+		r, model, note := x.solver.Check(nil, x.ex.opts.AssertTimeout, true)
+		if r != Sat {
+			if r == Unsat {
+				panic(abortPath{"infeasible path"})
+			}
+			panic(unsupported("concretizeByModel(" + what + "): solver " + r.String() + " " + note))
+		}
+		m = evalTerm(s.t, model, map[*Term]uint64{})
+	}
+	x.modelSplits++
+	if x.modelSplits > 6 {
+		panic(budgetErr{"more than 6 distinct values at concretize-by-model sites (" + what + ")"})
+	}
+	eq := x.tt.Eq(s.t, x.tt.BV(w, m))
+	if x.decide([]*Term{eq, x.tt.Not(eq)}, "concretize "+what) == 0 {
+		if signed {
+			return signExt(m, w)
+		}
+		return int64(m)
+	}
+	return x.concretizeByModel(v, what)
+}
